@@ -505,9 +505,9 @@ func init() {
 		Rule:          "histories of 3-8 Expression.Search calls of one compiled expression over 2-4 documents with repeats (d1 dx d1 dy ...); expressions biased to functions and selectors that build or reorder containers (sort, sort_by, reverse, merge, group_by, from_items, to_array, [*], slices, flatten, multi-select, filters, literals returned by reference and then sorted/reversed/merged); plus a directed list (every ordering/reversing/merging function x every way of passing an array of the document or a literal without a copy: x, x[*], x[:], x[], x[?`true`], to_array(x), (x), x | @, ...); every slice of every document carries 1-3 spare capacity slots filled with canaries; per call: outcome = fresh one-shot Search of the same text on a deep copy, deep snapshot of every document unchanged (dynamic types, values, lengths, capacity tails, container identities), AST fingerprint of the compiled expression unchanged (hook), every earlier result still equal to the snapshot taken when it was returned; edited-in-place stream: the caller edits its document in place between calls (leaf replaced, elements/values swapped, member added or removed; container identities kept) and both Expression.Search and one-shot Search on those same containers must equal a fresh Search on a deep copy of the current content; foreign-containers stream: documents whose plain containers hold typed slices/maps, arrays, structs and pointers keep the same dynamic type and value at every position after every call; MustCompile panics exactly when Compile fails (corpus expressions and mutants); non-trivial = a history that returned a non-empty container; distinct by (expression, first document)",
 		MinNontrivial: 1000,
 		Streams: []Stream{
-			{Name: "histories", N: func(c *Ctx) int { return tierN(c, 8000, 600000) }, Run: c06History},
+			{Name: "histories", N: func(c *Ctx) int { return tierN(c, 8000, 2000000) }, Run: c06History},
 			{Name: "directed", N: func(c *Ctx) int { return len(c07Directed()) }, Run: c06Directed, Exhaustive: true},
-			{Name: "edited-in-place", N: func(c *Ctx) int { return tierN(c, 5000, 300000) }, Run: c06Edited},
+			{Name: "edited-in-place", N: func(c *Ctx) int { return tierN(c, 5000, 1000000) }, Run: c06Edited},
 			{Name: "foreign-containers", N: func(c *Ctx) int { return tierN(c, 3000, 150000) }, Run: c06Foreign},
 			{Name: "mustcompile", N: func(c *Ctx) int { return tierN(c, 10000, 100000) }, Run: c06Must},
 		},
